@@ -125,8 +125,13 @@ pub fn check_program(model: &mut Model, report: &mut Report, case: &RuleCase, co
     if let Some((o0, o1)) = oracle_compare(model, &block0, &block1) {
         if o0 != o1 {
             oracle_failed = true;
-            let mut fails = |text: &str| oracle_fails(model, &rules, text).is_some();
-            let small = shrink_lines(code, &mut fails);
+            let check_name = format!("{}:behaviour", case.rule_name);
+            let small = if report.violations_for(&check_name) < 2 {
+                let mut fails = |text: &str| oracle_fails(model, &rules, text).is_some();
+                shrink_lines(code, &mut fails)
+            } else {
+                code.to_owned()
+            };
             let detail = oracle_fails(model, &rules, &small);
             report.violation(Violation {
                 kind: "oracle".into(),
@@ -156,7 +161,11 @@ pub fn check_program(model: &mut Model, report: &mut Report, case: &RuleCase, co
                 let a = model.ask(&format!("{}.rule {} {}", prop, hex(rule_name.as_bytes()), s0));
                 a != crate::astsexp::block_to_sexp(&b1)
             };
-            let small = shrink_lines(code, &mut differs);
+            let small = if report.violations_for(&format!("{}:model", case.rule_name)) < 2 {
+                shrink_lines(code, &mut differs)
+            } else {
+                code.to_owned()
+            };
             report.violation(Violation {
                 kind: "correspondence".into(),
                 check: format!("{}:model", case.rule_name),
